@@ -6,6 +6,7 @@ import (
 	"go/constant"
 	"go/token"
 	"go/types"
+	"os"
 	"sort"
 	"strings"
 	"time"
@@ -166,6 +167,17 @@ func analyzeFn(fn *ssa.Function) *fnInfo {
 			return key(ns[i]) < key(ns[j])
 		})
 	}
+	if traceBlocks {
+		fmt.Fprintf(os.Stderr, "fn %s: %d blocks, top order:", fn.Name(), len(fn.Blocks))
+		for _, n := range fi.top {
+			if n.block != nil {
+				fmt.Fprintf(os.Stderr, " %d", n.block.Index)
+			} else {
+				fmt.Fprintf(os.Stderr, " L%d", n.loop.header.Index)
+			}
+		}
+		fmt.Fprintln(os.Stderr)
+	}
 	return fi
 }
 
@@ -197,6 +209,7 @@ type frame struct {
 	fc      *FuncContract
 	entry   *State
 	entryVars map[string]*Val
+	callCount map[string]int
 }
 
 func (c *Ctx) runNodes(fr *frame, ns []node) {
@@ -259,6 +272,8 @@ func (c *Ctx) enterBlock(fr *frame, b *ssa.BasicBlock, es []edgeState) *State {
 }
 
 const maxUnroll = 20000
+
+var traceBlocks = os.Getenv("GOVC_TRACE") != ""
 
 func (c *Ctx) runLoop(fr *frame, l *loopInfo) {
 	es := fr.pending[l.header]
@@ -347,6 +362,9 @@ func (c *Ctx) runNodesLoop(fr *frame, l *loopInfo) {
 }
 
 func (c *Ctx) execBlock(fr *frame, b *ssa.BasicBlock, st *State) {
+	if traceBlocks {
+		fmt.Fprintf(os.Stderr, "  block %s#%d (%s) pcsize=%d\n", fr.fn.Name(), b.Index, b.Comment, termSize([]*Term{st.pc}))
+	}
 	for _, in := range b.Instrs {
 		if _, ok := in.(*ssa.Phi); ok {
 			continue
@@ -1206,8 +1224,8 @@ func (w *World) srcText(pos token.Pos, fallback string) string {
 
 func normText(s string) string {
 	s = strings.Join(strings.Fields(s), "")
-	if len(s) > 90 {
-		s = s[:90]
+	if len(s) > 150 {
+		s = s[:150]
 	}
 	return s
 }
